@@ -5,7 +5,6 @@ package main
 // and records one event per step.  It decides nothing.
 
 import (
-	"bufio"
 	"bytes"
 	"encoding"
 	"encoding/json"
@@ -62,7 +61,7 @@ type machine struct {
 	spos    map[int][]byte
 	bufs    map[int][]byte
 	slices  map[int][]mq.TopicFilter
-	bufios  map[int]*bufio.Reader
+	bufios  map[int]*wrappedReader
 	out     *json.Encoder
 	flush   func() error
 	mu      sync.Mutex
@@ -342,13 +341,32 @@ func (m *machine) call(p any, name string, args []json.RawMessage) error {
 
 var reBytes = regexp.MustCompile(`(\d+) bytes`)
 
-func strN(s string) int {
+// strN: the N of "N bytes" in a rendering, -1 if there is none.  A text field of the packet may itself read "12 bytes":
+// of several candidates the one that equals want (the size actually written, or the size of the packet's encoding) is the
+// printed size; if none does, the last one is reported (and differs from the size).
+func strN(s string, want int) int {
 	mm := reBytes.FindAllStringSubmatch(s, -1)
 	if len(mm) == 0 {
 		return -1
 	}
-	n, _ := strconv.Atoi(mm[len(mm)-1][1])
-	return n
+	last := -1
+	for _, m := range mm {
+		n, _ := strconv.Atoi(m[1])
+		if n == want {
+			return n
+		}
+		last = n
+	}
+	return last
+}
+
+// malformedSuffix: the rendering carries "malformed!" behind the printed size (a topic or filter that itself reads
+// "malformed!" stands in front of the size and is not the suffix).
+func malformedSuffix(s string) bool {
+	if loc := reBytes.FindAllStringIndex(s, -1); len(loc) > 0 {
+		return strings.Contains(s[loc[len(loc)-1][1]:], "malformed!")
+	}
+	return strings.Contains(s, "malformed!")
 }
 
 func errTag(err error) string {
@@ -383,10 +401,16 @@ func reencode(p any) (b []int, failed bool) {
 }
 
 // printedSize: the N of "N bytes" in String(), -1 if there is none (or String panics: a Panic event of its own).
-func printedSize(p any) int {
+func printedSize(p any, want int) int {
 	n := -1
-	guarded("Diag", "String", func() { n = strN(p.(fmt.Stringer).String()) })
+	guarded("Diag", "String", func() { n = strN(p.(fmt.Stringer).String(), want) })
 	return n
+}
+
+// renderBefore: String() before an operation, kept as text until the size to look for is known.
+func renderBefore(p any) (s string, ok bool) {
+	ok = guarded("Diag", "String", func() { s = p.(fmt.Stringer).String() })
+	return
 }
 
 // runStep executes one step; a panic inside the library is turned into a Panic event.
@@ -454,8 +478,12 @@ func (m *machine) runStep(idx int, s step) (stop bool) {
 		if s.Writer != nil {
 			w.plan = *s.Writer
 		}
-		strN0 := printedSize(p) // the size String() prints before the write
-		n, err := p.(io.WriterTo).WriteTo(w)
+		var dst io.Writer = w
+		if w.plan.Rich { // a writer that also offers WriteByte, WriteString and ReadFrom (all logged as Write calls)
+			dst = richWriter{w}
+		}
+		str0, ok0 := renderBefore(p) // what String() prints before the write
+		n, err := p.(io.WriterTo).WriteTo(dst)
 		offered := []any{}
 		for _, o := range w.offered {
 			offered = append(offered, ints(o))
@@ -467,7 +495,10 @@ func (m *machine) runStep(idx int, s step) (stop bool) {
 		m.written[s.H] = append([]byte{}, w.accepted...)
 		e := obj{"ev": "WriteTo", "h": s.H, "writes": calls, "n": int(n), "err": errTag(err),
 			"offered": offered, "accepted": ints(w.accepted), "wkind": w.plan.Kind, "wk": w.plan.K,
-			"strN": printedSize(p), "strN0": strN0, "type": typeName(p)}
+			"strN": printedSize(p, int(n)), "strN0": -1, "type": typeName(p)}
+		if ok0 {
+			e["strN0"] = strN(str0, int(n))
+		}
 		m.attachObs(e, s.H, s.NoObs)
 		m.emit(e)
 
@@ -504,8 +535,11 @@ func (m *machine) runStep(idx int, s step) (stop bool) {
 		}
 		m.streams[s.Stream] = newScriptedReader(data, plan)
 		delete(m.bufios, s.Stream)
-		if s.Key == "bufio" { // the caller hands ReadPacket a *bufio.Reader on top of the transport
-			m.bufios[s.Stream] = bufio.NewReader(m.streams[s.Stream])
+		if s.Key != "" { // the caller hands ReadPacket a standard reader (on top of the transport, or holding the bytes itself)
+			m.bufios[s.Stream] = wrapReader(s.Key, m.streams[s.Stream])
+		}
+		if plan.Rich {
+			m.streams[s.Stream].rich = true
 		}
 		m.spos[s.Stream] = data
 		fate := "eof"
@@ -522,10 +556,13 @@ func (m *machine) runStep(idx int, s step) (stop bool) {
 		}
 		pos0 := r.pos
 		var rd io.Reader = r
+		if r.rich {
+			rd = richReader{r}
+		}
 		br := m.bufios[s.Stream]
 		if br != nil {
-			rd = br
-			pos0 = r.pos - br.Buffered()
+			rd = br.rd
+			pos0 = br.consumed()
 		}
 		m.steps = 0
 		stepLimit = budgetFor(len(r.data) - r.pos)
@@ -535,7 +572,7 @@ func (m *machine) runStep(idx int, s step) (stop bool) {
 		stepLimit = 0
 		pos1 := r.pos
 		if br != nil {
-			pos1 = r.pos - br.Buffered() // what ReadPacket took out of the caller's bufio.Reader
+			pos1 = br.consumed() // what ReadPacket took out of the caller's reader
 		}
 		e := obj{"ev": "Read", "stream": s.Stream, "h": s.H, "pos0": pos0, "pos1": pos1, "calls": r.takeCalls(), "wrapped": br != nil,
 			"ok": err == nil, "nilpkt": p == nil, "typednil": p != nil && isNilPacket(p), "isE": errors.Is(err, ErrInjected), "isEOF": errors.Is(err, io.EOF),
@@ -636,12 +673,12 @@ func (m *machine) runStep(idx int, s step) (stop bool) {
 		if pk, ok := p.(mq.Packet); ok {
 			mq.Dump(&dump, pk)
 		}
-		first := 0
+		first, encLen := 0, -1
 		if re, failed := reencode(p); !failed && len(re) > 0 {
-			first = re[0]
+			first, encLen = re[0], len(re)
 		}
 		e := obj{"ev": "Diag", "h": s.H, "type": typeName(p), "first": first, "string": ints([]byte(str)), "dump": ints(dump.Bytes()),
-			"malformed": strings.Contains(str, "malformed!"), "strN": strN(str)}
+			"malformed": malformedSuffix(str), "strN": strN(str, encLen)}
 		e["hasWF"] = false
 		if wf, ok := p.(mq.HasWellFormed); ok {
 			e["hasWF"] = guarded("WellFormed", "WellFormed", func() { e["wfErr"] = wf.WellFormed() != nil })
@@ -801,7 +838,7 @@ func (m *machine) runProgram(pr program) {
 	m.spos = map[int][]byte{}
 	m.bufs = map[int][]byte{}
 	m.slices = map[int][]mq.TopicFilter{}
-	m.bufios = map[int]*bufio.Reader{}
+	m.bufios = map[int]*wrappedReader{}
 	m.observe = ""
 	if len(pr.Steps) > 0 && pr.Steps[0].Observe != "" {
 		m.observe = pr.Steps[0].Observe
